@@ -507,35 +507,35 @@ EXPL = {
     'C01': 'Python dtw.distance is an instance of the documented DP scheme: band, three predecessors with penalty on the two non-diagonal ones after '
            'inverting the rolling-buffer map, psi roles, domain conversions, strict pruning, row reset over the whole written row, table lookups by the inner distance in effect; decided symbolically for all lengths/windows/psi.',
     'C02': 'Fact-by-fact agreement of the four C distance kernels with the documented scheme (the same oracle the Python engine is checked against), '
-           'domain typing per kernel kind, variant families, pxd/header and call-site role agreement, option encodings, element-major n-D strides, NDEBUG (shipped) configuration = analysed configuration minus asserts.',
+           'domain typing per kernel kind, variant families, pxd/header and call-site role agreement, option encodings, element-major n-D strides, NDEBUG (shipped) configuration = analysed configuration minus asserts. The Python kernel is held to the same band and recurrence; the only_ub short-cut returns the same domain in both engines.',
     'C03': 'PrunedDTW block normal form in every kernel, never pruning on equality; final over-threshold conversion strict and domain-correct; the bound '
            'fed to max_dist belongs to the same inner distance/dimensionality; no round-tripped threshold in the final conversion.',
     'C04': 'Python warping_paths as scheme instance (both keep_int_repr modes); compact C writer per region: predecessors after inverting the region map, '
-           'lock-step of wpsi/ci on all paths, inf fill; readers/expanders use the writer column<->position map region by region (regime proofs); pyx direct-matrix decision and identity; exits; return arity; option forwarding.',
+           'lock-step of wpsi/ci on all paths, inf fill; readers/expanders use the writer column<->position map region by region (regime proofs); pyx direct-matrix decision and identity; exits; return arity; option forwarding. Slice expanders visit exactly the rows of each writer region that lie in the requested slice.',
     'C05': 'Back-tracking step tables are bijections onto the DP predecessors with penalties in the matrix domain; penalty reaches best_path; path arrays '
-           'sized l1+l2 and at most one write per strictly decreasing step.',
-    'C06': 'Symbolic iteration space of all pair enumerators and length functions equals the documented block semantics (values touched only through comparisons).',
+           'sized l1+l2 and at most one write per strictly decreasing step. The cost-matrix call that feeds a C back-tracker keeps the internal representation and marks the relaxed border on every path; the distance returned next to the path is rooted exactly when it is a squared cost.',
+    'C06': 'Symbolic iteration space of all pair enumerators and length functions equals the documented block semantics (values touched only through comparisons). Each series argument of the kernel call addresses element r / c of its container; a column range may not depend on what the previous row left behind.',
     'C07': 'Static sufficient condition for determinism of each parallel for: complete privatisation, single shared output with disjoint slots from the '
            'prefix-sum plan, re-entrant callees; order-preserving pool primitive and pair order in the multiprocessing branches.',
     'C08': 'Allocation/use agreement of compact buffers and index arrays, no accumulator shadowing, n-D stride form, psi-derived index ranges clamped to the '
-           'band-sized buffers (bounds obligations with concrete witnesses), compact-layout position bounds per region (column loop and blanked prefix, all four writers).',
+           'band-sized buffers (bounds obligations with concrete witnesses), compact-layout position bounds per region (column loop and blanked prefix, all four writers). The DP store of every rolling-buffer kernel stays inside its row over the whole band (witness search on the extracted terms); the barycenter update indexes sums and series through the index arrays of their own series.',
     'C09': 'LB_Keogh envelope range equals the DTW band in all three copies, scan accumulators initialised correctly, Euclidean distance padding element and '
-           'stride form, only_ub returns the result domain, bound variants match kernel variants.',
+           'stride form, only_ub returns the result domain, bound variants match kernel variants. The Python envelope may be an explicit scan: accumulator compared = accumulator updated, start value, else-chained pairs only from an element.',
     'C10': 'Band relation symmetric/monotone/window-1 corollary proved on the extracted band terms; recurrence symmetric in the two non-diagonal steps; psi '
-           'roles symmetric; point distances non-negative symmetric forms; mirroring of the triangular result.',
-    'C11': 'n-D kernels differ from 1-D siblings only in point distance and stride form ((multiple of ndim) + d through local definitions); use_ndim plumbing to every sink; detected_ndim is the number of components of a point; n-D entry points exist.',
+           'roles symmetric; point distances non-negative symmetric forms; mirroring of the triangular result. Result cell and end-relaxation range; the DP value is d + min over the three predecessors.',
+    'C11': 'n-D kernels differ from 1-D siblings only in point distance and stride form ((multiple of ndim) + d through local definitions); use_ndim plumbing to every sink; detected_ndim is the number of components of a point; n-D entry points exist. Band and recurrence of the n-D kernels against the univariate scheme.',
     'C12': 'DBA accumulation/mean pairing on every path in C and Python, mask guard and bit order, copy before in-place update, at most max_it updates, '
-           'buffer sized for the series actually aligned; **kwargs options reach every alignment call.',
+           'buffer sized for the series actually aligned; **kwargs options reach every alignment call. Index-array roles of the C update; representation of the matrix the path routines read; path arguments after expanding option-forwarding helpers.',
     'C13': 'psi encoding of subsequence DTW, identical options in the four engines, single domain conversion of the matching function, internal-domain penalty '
-           'for back-tracking, writes-only-upper-bounds in the best-first iterator.',
-    'C14': 'Candidate loop as path/typestate problem: LB only when valid, strict comparators, threshold follows the heap root, distances defined on every path, cache typestate; LB_Keogh envelope window = DTW band in both engines.',
+           'for back-tracking, writes-only-upper-bounds in the best-first iterator. Recurrence of both cost-matrix engines (the matching function is their last row).',
+    'C14': 'Candidate loop as path/typestate problem: LB only when valid, strict comparators, threshold follows the heap root, distances defined on every path, cache typestate; LB_Keogh envelope window = DTW band in both engines. Final over-threshold conversion of the kernels strict and in the result domain.',
     'C15': 'Merge loop writes only +inf into the matrix, guard dominates merges and the minimum is recomputed on every path back; blanking covers the merged '
-           'series; linkage hook appends one row per merge; SciPy condensed order.',
+           'series; linkage hook appends one row per merge; SciPy condensed order. max_dist among the options: final over-threshold conversion of the kernels strict and in the result domain; pair addressing of the C enumerators.',
     'C16': 'Final assignment post-dominates the last write of the means; partition construction; iteration counter; nearest-mean helpers as siblings; seeding blocks; option domains of the C distances that decide "nearest"; the options dict is used through the mapping interface only (no attribute access on a field that is expanded with **).',
-    'C17': 'dp.dp is a scheme instance with per-pair (substitution, indel) costs applied as fn(s1[i], s2[j]); arrow table agreement writer/reader; gap emission; negation of value and matrix together; border gap cost = indel cost of the substitution function; the no-cell-under-max_dist exit cannot fire on an empty row.',
-    'C18': 'Affinity recurrence normal form in Python and the C region expansions, option forwarding (also for iterated, non-returned wrapping calls), entry points, identity tests, scan initialisers, negativize/positivize duality, consumed-cell marks idempotent and undone by the reset; the cells blanked below the diagonal (only_triu) stay inside their row.',
-    'C19': 'Dispatch chains, monotonicity/range calculus per arm, reported-parameter completeness, documented formula agreement, keep_sign offset Xz = f(0) in every branch (closed forms normalised with sympy).',
-    'C20': 'No store through series parameters in Python or C, contiguity before raw pointers, private container storage, optional-NumPy symmetry, module state and per-object history.',
+    'C17': 'dp.dp is a scheme instance with per-pair (substitution, indel) costs applied as fn(s1[i], s2[j]); arrow table agreement writer/reader; gap emission; negation of value and matrix together; border gap cost = indel cost of the substitution function; the no-cell-under-max_dist exit cannot fire on an empty row. Arrow recording decided on the 13 order types of the three candidate scores.',
+    'C18': 'Affinity recurrence normal form in Python and the C region expansions, option forwarding (also for iterated, non-returned wrapping calls), entry points, identity tests, scan initialisers, negativize/positivize duality, consumed-cell marks idempotent and undone by the reset; the cells blanked below the diagonal (only_triu) stay inside their row. Trace of a match ends at a non-positive cell; clip at zero on both arms of the tau test in every region; slice expanders cover their rows.',
+    'C19': 'Dispatch chains, monotonicity/range calculus per arm, reported-parameter completeness, documented formula agreement, keep_sign offset Xz = f(0) in every branch (closed forms normalised with sympy). Sign of the quantile-derived slope on a grid of consistent calibrations.',
+    'C20': 'No store through series parameters in Python or C, contiguity before raw pointers, private container storage, optional-NumPy symmetry, module state and per-object history. Distance-matrix routines address row r / c of a 2-D array exactly as the pointer container does.',
 }
 
 C_ENGINE_PROPS = {'C02', 'C03', 'C04', 'C05', 'C06', 'C07', 'C08', 'C09', 'C10', 'C11', 'C12', 'C18', 'C20'}
